@@ -59,7 +59,8 @@ func Load(repoDir, verifDir string) (*Engine, error) {
 			return nil
 		}
 		n := info.Name()
-		if strings.HasPrefix(n, "zz_") && strings.HasSuffix(n, "_verif.go") && !strings.Contains(n, "govc_generated") {
+		isVspec := filepath.Base(filepath.Dir(p)) == "vspec" && strings.HasSuffix(n, "_verif.go") && !strings.HasSuffix(n, "_test.go")
+		if (isVspec || strings.HasPrefix(n, "zz_")) && strings.HasSuffix(n, "_verif.go") && !strings.Contains(n, "govc_generated") {
 			rel, _ := filepath.Rel(repoDir, filepath.Dir(p))
 			pp := ModulePath
 			if rel != "." {
